@@ -276,6 +276,11 @@ func (dec *Decoder) decodeMB(tokenBR *bitio.BoolReader) error {
 
 	if !skip {
 		dec.parseResiduals(mb, left, block, tokenBR)
+		// A macroblock whose coefficients all decoded to zero counts as
+		// skipped for inner-edge loop filtering even when its skip flag
+		// is not set (RFC 6386 section 15; libwebp: ParseResiduals
+		// returns !(non_zero_y | non_zero_uv)).
+		skip = block.NonZeroY|block.NonZeroUV == 0
 	} else {
 		left.Nz = 0
 		mb.Nz = 0
